@@ -241,10 +241,9 @@ def posix_cases(rng, n):
 
 def tsan_runs(chk, cfg, seeds, nthreads, rounds):
     res = {"runs": 0, "ok": 0}
-    base = [f for f in cfg["sources"] if not f.startswith("prwlock-")]
-    for impl, rw in (("general", "prwlock-general.c"), ("posix", "prwlock-posix.c")):
+    for impl, files in (("general", ["prwlock-general.c", "pmutex-posix.c", "pcondvariable-posix.c"]), ("posix", ["prwlock-posix.c"])):
         try:
-            exe = pv.build_harness("rwlock_threads_" + impl, cfg, ["rwlock_threads.c"], repo_files=base + [rw], san="tsan",
+            exe = pv.build_harness("rwlock_threads_" + impl, cfg, ["rwlock_threads.c"], repo_files=files, san="tsan",
                                    cc="clang-14", tag="rwthr-" + impl)
         except pv.BuildError as e:
             chk.violation(str(e), "C02 supporting real-thread harness (%s) does not build" % impl, no_input=True, suffix="txt")
@@ -309,9 +308,13 @@ def run(chk):
         rng.shuffle(all32)
         special = [["WW", "WW", "RR"], ["WR", "RW", "WW"], ["WW", "WW", "WW"], ["RR", "RR", "WW"], ["rw", "WR", "RW"], ["ww", "RW", "WR"],
                    ["Rr", "WW", "wR"], ["WR", "WR", "WR"]]
-        mixlist += special + (all32 if thorough else all32[:30])
+        mixlist += special + (all32 if thorough else all32[:150])
+        mixlist += mixes(4, 1)
         if thorough:
-            mixlist += [["W", "W", "R", "R"], ["W", "W", "W", "R"], ["WR", "RW", "W", "R"], ["W", "R", "w", "r"]]
+            a42, a33 = mixes(4, 2), mixes(3, 3)
+            rng.shuffle(a42)
+            rng.shuffle(a33)
+            mixlist += a42[:30] + a33[:60] + [["WW", "WW", "RR", "RR"], ["WR", "RW", "WW", "RR"], ["WRW", "RWR", "WWW"]]
         samples = []
         with ThreadPoolExecutor(max(2, pv.NCPU)) as ex:
             for codes, (stt, bad, smp) in zip(mixlist, ex.map(lambda c: exhaustive_mix(exe, c), mixlist)):
@@ -339,7 +342,7 @@ def run(chk):
         chk.cov["exhaustive_small_scope"] = {
             "program_mixes": st.mixes, "complete": st.truncated == 0,
             "scope": "all round mixes (R W tryR tryW) of 1x2, 2x1, 2x2, 3x1 threads x rounds; %s 3x2 mixes%s; every reachable state with spurious wake-ups and every signal choice" % (
-                "all 816" if thorough else "38 of the 816", "; four 4-thread mixes" if thorough else ""),
+                "all 816" if thorough else "158 of the 816", "; all 4x1 mixes; 32 of the 4x2 and 61 of the 3x3 mixes" if thorough else "; all 4x1 mixes"),
             "states": st.states, "transitions": st.transitions, "covering_maximal_schedules_replayed_on_C": st.schedules,
             "steps_compared": st.steps, "model_deadlock_states": st.model_deadlocks, "seconds": round(time.time() - t0, 1)}
         # the number of distinct non-trivial cases of the exhaustive part = schedules (each is a different path)
@@ -349,7 +352,7 @@ def run(chk):
         pv.log("model driver does not build: C-side search only")
 
     # ---- random long schedules (C schedules itself; replayed on both sides)
-    nrand = 400 if thorough else 60
+    nrand = 1200 if thorough else 150
     rcases = []
     t0 = time.time()
     verdicts = {}
@@ -367,7 +370,7 @@ def run(chk):
         rcases.append(case)
     # small programs that are NOT disciplined: pure correspondence (unlock without holding, nested locks, self-deadlock)
     ucases = []
-    for i in range(300 if thorough else 60):
+    for i in range(1000 if thorough else 150):
         progs, _ = random_progs(rng, rng.randrange(1, 5), 4, disciplined=False)
         case, verdict, rc, err = auto_schedule(exe, progs, rng.randrange(1, 2**31), 5000, rng.choice([0, 10, 40]), nospec=True)
         ucases.append(case)
@@ -385,7 +388,7 @@ def run(chk):
 
     # ---- supporting: real threads under TSan (thorough)
     if thorough:
-        chk.cov["tsan_real_threads"] = tsan_runs(chk, cfg, [chk.seed * 10 + k for k in range(3)], 8, 3000)
+        chk.cov["tsan_real_threads"] = tsan_runs(chk, cfg, [chk.seed * 10 + k for k in range(3)], 12, 20000)
         if chk.violations:
             found = True
 
